@@ -34,7 +34,8 @@ Expect(s, ev) ==
     [] ev.op = "gcm.seal" ->
          LET o == s[ev.h]
              \* aad_zeros: the additional data is that many zero bytes (huge lengths; see GCMG!SealZeroAad)
-             exp == Prefix(ev) \o (IF "aad_zeros" \in DOMAIN ev THEN G!SealZeroAad(o.rk, ev.nonce, ev.aad_zeros, ev.pt, o.ts)
+             exp == Prefix(ev) \o (IF "nonce_zeros" \in DOMAIN ev THEN G!SealZeroIv(o.rk, ev.nonce_zeros, ev.aad, ev.pt, o.ts)
+                                   ELSE IF "aad_zeros" \in DOMAIN ev THEN G!SealZeroAad(o.rk, ev.nonce, ev.aad_zeros, ev.pt, o.ts)
                                    ELSE G!Seal(o.rk, ev.nonce, ev.aad, ev.pt, o.ts))
              okV == ev.panic = "" /\ ev.out = exp
              okIn == /\ ev.nonce_after = ev.nonce /\ ev.aad_after = ev.aad
